@@ -17,7 +17,14 @@ import sys; sys.path.insert(0,'tools'); import props
 print(props.PROPS['$p'].get('crate','harness'))")
   bin=$(echo $p | tr 'A-Z' 'a-z')
   [ -f "$crate/Cargo.lock" ] || cp -f /repo/Cargo.lock "$crate/Cargo.lock"
-  (cd $crate && cargo build --release --offline --bin $bin --target-dir target 2>&1 | tail -2)
+  par=$(python3 -c "
+import sys; sys.path.insert(0,'tools'); import props
+print('1' if props.PROPS['$p'].get('parallel') else '')")
+  if [ -n "$par" ]; then
+    (cd $crate && cargo build --release --offline --features parallel --bin $bin --target-dir target-par 2>&1 | tail -2)
+  else
+    (cd $crate && cargo build --release --offline --bin $bin --target-dir target 2>&1 | tail -2)
+  fi
 done
 (cd lean && lake build arkdrv Ark.Audit $MODS 2>&1 | tail -5)
 exit 0
